@@ -29,28 +29,25 @@ INJECTIVE_KEYS = {'str', 'repr'}
 
 # sink allow-list: key -> reason (one named construct each)
 ALLOW = {
-    'bfg9000.environment:EnvVarDict.changes|for k in set(self.initial.keys()) - self.keys()':
-        'feeds EnvVarDict._changes -> mopack-options.yml, an auxiliary file '
-        '(C13 requires set-equality only for auxiliary files)',
-    'bfg9000.versioning:simplify_specifiers|for i in spec':
-        'the loop only folds min/max bounds and collects != entries that '
-        'are re-packed into a SpecifierSet (unordered again) by the return '
-        'expression',
     'bfg9000.builtins.find:write_depfile|for i in seen_dirs':
         'the find_files depfile is auxiliary by the property\'s own text '
         '(equal as a set of entries)',
-    'bfg9000.languages:_LanguageInfo.__init__|{i: listify(exts.get(i)) for i in allkeys}':
-        'extension tables are only used for lookups by key',
-    'bfg9000.languages:_LanguageInfo.__init__|{i: listify(auxexts.get(i)) for i in allkeys}':
-        'extension tables are only used for lookups by key',
-    'bfg9000.languages:Languages.__init__|{i: {} for i in type._fields}':
-        'namedtuple._fields is a tuple (ordered); the set copy is separate',
 }
 
 
 # allow-list by *origin* of the unordered value (robust against moving the
 # loop into a helper or renaming its variable): origin key -> reason
 ORIGIN_ALLOW = {
+    'bfg9000.environment|EnvVarDict.initial':
+        'feeds EnvVarDict._changes -> mopack-options.yml, an auxiliary file '
+        '(C13 requires set-equality only for auxiliary files)',
+    'bfg9000.versioning|specifier-set':
+        'the loop over the SpecifierSet handed to simplify_specifiers only '
+        'folds min/max bounds and collects != entries that are re-packed '
+        'into a SpecifierSet (unordered again) by the return expression',
+    'bfg9000.languages|key-tables':
+        'extension / per-type tables built in the language registries are '
+        'only used for lookups by key',
     'bfg9000.builtins.find|find_dirs':
         'the find_files depfile is auxiliary by the property\'s own text '
         '(equal as a set of entries): iteration over the walked-directory '
@@ -59,7 +56,8 @@ ORIGIN_ALLOW = {
 
 
 def _origin_allowed(ctx, fi, node):
-    if fi.module.name != 'bfg9000.builtins.find':
+    if fi.module.name not in ('bfg9000.builtins.find', 'bfg9000.environment',
+                              'bfg9000.versioning', 'bfg9000.languages'):
         return None
     from ..facts import Facts, has
     F = getattr(ctx, '_facts', None)
@@ -72,6 +70,25 @@ def _origin_allowed(ctx, fi, node):
         exprs = [g.iter for g in node.generators]
     if isinstance(node, ast.Call):
         exprs = list(node.args)
+    if fi.module.name == 'bfg9000.environment':
+        # the removed-variables set of EnvVarDict (keys of `initial` that
+        # are gone), in whatever method/variable it is iterated
+        if fi.cls is not None and fi.cls.name == 'EnvVarDict' and any(
+                has(F.atoms(e, fi), 'self', 'initial') for e in exprs):
+            return 'bfg9000.environment|EnvVarDict.initial'
+        return None
+    if fi.module.name == 'bfg9000.versioning':
+        ss = ctx.repo.functions.get('bfg9000.versioning:simplify_specifiers')
+        if ss is not None and (fi is ss or F.only_called_from(
+                fi, {ss.fq})) and any(
+                any(x.startswith(('param:', 'via:param:'))
+                    for x in F.atoms(e, fi)) for e in exprs):
+            return 'bfg9000.versioning|specifier-set'
+        return None
+    if fi.module.name == 'bfg9000.languages':
+        if isinstance(node, ast.DictComp) and fi.node.name == '__init__':
+            return 'bfg9000.languages|key-tables'
+        return None
     # the value iterated is the seen_dirs parameter of write_depfile (or of a
     # helper it is passed to), fed from build_inputs['find_dirs']
     wd = ctx.repo.functions.get('bfg9000.builtins.find:write_depfile')
